@@ -327,6 +327,9 @@ def e_find_peaks(inp):
     extra = []
     if inp.get('border_width_arr') is not None:
         extra = [find_peaks(inp['data'], inp.get('thr', 12.0), box_size=3, border_width=inp['border_width_arr'], mask=inp.get('mask'))]
+    from photutils.centroids import centroid_1dg
+    # (a centroid function that takes the error cutout: the error array travels through find_peaks and centroid_sources)
+    extra = extra + [find_peaks(inp['data'], inp.get('thr', 12.0), box_size=7, mask=inp.get('mask'), centroid_func=centroid_1dg, error=inp.get('error'), npeaks=3)]
     return extra + [find_peaks(inp['data'], inp.get('thr', 12.0), box_size=5, mask=inp.get('mask')),
             find_peaks(inp['data'], inp.get('thr', 12.0), footprint=inp.get('footprint', np.ones((3, 5), dtype=bool)), mask=inp.get('mask'),
                        centroid_func=centroid_com, error=inp.get('error'), npeaks=3)]
